@@ -150,6 +150,41 @@ def run(res, tier, rng):
                     if got != "hit":
                         res.violation("property", "%s: two urls with the same %s form are not the same key" % (cls.__name__, fn.__name__),
                                       input=dict(stored=u, query=v, suffix_aware=sa), impl=got, expected="hit")
+    # the variant tries are the same longest-prefix dictionary, keyed by the stems of the canonicalized / normalized /
+    # fingerprinted url (whatever options the trie was built with): histories with trailing slashes, longer urls below
+    from ural.lru import canonicalized_lru_stems, normalized_lru_stems, fingerprinted_lru_stems
+    VU = [u for u in U if "|" not in u]
+    variants = ((CanonicalizedLRUTrie, canonicalized_lru_stems, [dict(), dict(strip_fragment=False)]),
+                (NormalizedLRUTrie, normalized_lru_stems, [dict(), dict(strip_trailing_slash=False), dict(strip_protocol=False)]),
+                (FingerprintedLRUTrie, fingerprinted_lru_stems, [dict(), dict(strip_suffix=True)]))
+    for _ in range(400 if tier == "quick" else 8000):
+        cls, stems_fn, kws = rng.choice(variants)
+        kw = rng.choice(kws)
+        sa = rng.random() < 0.5
+        n = rng.randint(1, 5)
+        ops = [("set", rng.choice(VU), i + 1) for i in range(n)]
+        qs = [("match", u) for u in rng.sample(VU, 8)] + [("match", x + rng.choice(["", "/", "/z", "z.html", "/z/y?q=2"])) for _, x, _ in ops[:3]]
+        t = cls(suffix_aware=sa, **kw)
+        bad_op = False
+        for _, x, v in ops:
+            if isinstance(call(t.set, x, v), Exc):
+                bad_op = True
+        if bad_op:
+            continue
+        res.evaluations += 1
+        def stems_v(kind, x):
+            return stems_fn(x, suffix_aware=sa, **kw)
+        try:
+            sp = spec(ops, qs, stems_v)
+        except Exception:  # noqa
+            continue
+        io = dict(len=len(t), values=sorted(map(repr, list(t))), match=[call(t.match, x) for _, x in qs])
+        nontriv.add((cls.__name__, repr(ops)))
+        if io != sp:
+            bad = [f for f in sp if io[f] != sp[f]]
+            res.violation("property", "%s is not the longest-prefix dictionary keyed by %s on: %s" % (cls.__name__, stems_fn.__name__, ",".join(bad)),
+                          input=dict(ops=ops, suffix_aware=sa, options=kw, queries=[q for q, a, b in zip(qs, io["match"], sp["match"]) if a != b][:4]),
+                          impl={f: io[f] for f in bad}, expected={f: sp[f] for f in bad})
     # seeded structured bases with all their C02 spellings / C04 variants: colliding pairs must hit
     from .url_grammar import gen_su, spelling_variants
     from .C04 import irrelevant_variants
@@ -179,7 +214,7 @@ def run(res, tier, rng):
     res.nontrivial = nontriv
     res.rule = ("URL universe 2 schemes x 2 ports x 3 host chains x 8 path chains (empty segments, '|') x 3 queries x fragment; every set-sequence of length <= %d over 14 of them, then seeded random sequences of set / "
                 "set_lru (serialized and list form) with values incl. None; match on urls, match_lru on serialized and list LRUs; len and iteration; implementation vs dictionary oracle vs "
-                "extracted model; every history replayed on one trie observed before the first and after every operation; x suffix_aware; variant tries: every pair of 17 spellings, and every C02 / C04 variant of seeded structured bases, with equal canonical / normalized / fingerprinted form must hit. "
+                "extracted model; the three variant tries (with options) against the same dictionary keyed by their own stems function, on histories with trailing slashes and longer urls below the stored ones; every history replayed on one trie observed before the first and after every operation; x suffix_aware; variant tries: every pair of 17 spellings, and every C02 / C04 variant of seeded structured bases, with equal canonical / normalized / fingerprinted form must hit. "
                 "Non-trivial = histories with >= 2 operations, and colliding spelling pairs." % depth)
     res.sample(dict(ops=cases[30]))
     res.theorems = THEOREMS
